@@ -150,6 +150,13 @@ class TooBig(Exception):
     pass
 
 
+class Refused(Exception):
+    """recovery mode only: the code gave up on the operand (a shift beyond MAX_SHIFT)"""
+
+
+MAX_SHIFT = 65536     # Spec.Arith.max_shift
+
+
 LIMIT = 1 << 96
 R50 = " ABCDEFGHIJKLMNOPQRSTUVWXYZ$.%0123456789"
 
@@ -210,13 +217,19 @@ def ev(e, syms, dot, enc, errs=None):
                 q = -q - (1 if r else 0)
             v = q if o == "BDiv" else a - b * q
         elif o in ("BShl", "BShr", "BLsh"):
-            if abs(b) > 200:
-                raise TooBig()
             left = (o == "BShl") or (o == "BLsh" and b >= 0)
             if o != "BLsh" and b < 0:
                 fail("arithmetic-error", 0)
                 left = not left     # the code goes on with the opposite shift by -b
             n = abs(b)
+            if left and n > MAX_SHIFT:
+                # refused, not computed: the evaluation of the whole operand stops here
+                if errs is None:
+                    raise EvalError("too-complex")
+                errs.append("too-complex")
+                raise Refused()
+            if n > 200:
+                raise TooBig()      # also past a reported error: the code (and the model in coqc) goes on computing
             if left:
                 v = a * (1 << n)
             else:
@@ -244,6 +257,8 @@ def small_enough(e, syms, dot, enc):
     """every intermediate value of the real run stays small (also past reported errors)"""
     try:
         ev(e, syms, dot, enc, errs=[])
+        return True
+    except Refused:
         return True
     except TooBig:
         return False
